@@ -4,16 +4,19 @@ import math
 
 import numpy as np
 
-from .common import (PREFIX, And, Case, Not, Or, U, all_close, call, check_names, close, elements, exact_eq, payload,
-                     si_close, vabs)
+from .common import (PREFIX, And, Case, HarnessError, Not, Or, U, all_close, call, check_names, close, elements, exact_eq,
+                     payload, si_close, vabs)
 
 LEVEL = "other"
 MANIFEST = dict(
     category="other",
     text=("Bounded symbolic execution of the real conversion code (symx): for every enumerated pair/triple of unit kinds and "
           "every entry point, z3 proves identity, inverse, composition, route agreement and the affine SI oracle for ALL real "
-          "values, scales and offsets (unsat of pc & not P per path); any model is replayed on plain unyt. Bounded: kinds, "
-          "payload shapes <= (2,2); rounding is outside."),
+          "values, scales and offsets (unsat of pc & not P per path); any model is replayed on plain unyt. Call histories are "
+          "run inside one path: chains of 1-2 conversions (copying routes and in-place twins) followed by one in-place step on "
+          "any of the objects alive, with z3 proving that every other object keeps its numbers and unit and that the same "
+          "request still gives the oracle's numbers; the same spellings with other scales in a second registry, interleaved, "
+          "with warm caches. Bounded: kinds, chains, payload shapes <= (2,2); rounding and non-float dtypes are outside."),
     design="DESIGN.md section 4 C03",
     technique="symbolic execution of the real Python code over z3 real terms; SMT (QF_NRA) obligations per path; counterexample replay")
 EXPLANATION = (
@@ -22,15 +25,36 @@ EXPLANATION = (
     "are executed on quantities whose value(s), unit scales and unit offsets are z3 reals (custom registry rows). Per path, "
     "z3 decides pc & not(P) for: A->A identity, A->B->A inverse, A->B->C == A->C, agreement of every route (to, in_units, "
     "to_value, convert_to_units in place, factor/offset by hand, base routes) in numbers and unit, all against the "
-    "independent affine oracle SI = s*(x - o). unsat = holds for every real value/scale/offset on that path."
+    "independent affine oracle SI = s*(x - o). unsat = holds for every real value/scale/offset on that path. "
+    "History family (hist): inside ONE path a source in A is sent through a chain of 1-2 steps (to / in_units with a string, "
+    "a Unit object or its own unit object, to_value with and without a unit, in_base/in_cgs/in_mks, or an in-place twin first) "
+    "to B, where B is A's own spelling, a second symbol with A's scale and offset, or any other unit (z3 then also covers equal "
+    "scales); then ONE in-place step (convert_to_units by string / Unit, convert_to_base mks/cgs, convert_to_cgs, convert_to_mks, "
+    "an in-place multiply by a symbolic k, a raw write of a symbolic w through .d) hits one of the objects alive, each in turn; "
+    "z3 then proves that every OTHER object still holds exactly its numbers and its unit, that the victim reads the oracle's "
+    "value in its new unit (A->B->C with the second leg in place == A->C), and that fresh to(C)/to_value(C) requests from a "
+    "survivor still give the oracle's numbers (the same request repeated). Epoch family: two registries give the spellings "
+    "xa, xb different symbolic scales/offsets; the same request alternates between them through all six entry points, twice."
 )
 BOUNDS = {
     "quick": "unit kinds {plain, prefixed plain, compound, temperature plain/affine/prefixed-affine, user angle with offset, "
              "table lat/lon/degree/rad, 10 EM pairs with SI prefixes}; all ordered pairs per family, selected triples; "
-             "scalar and 2-element payloads; 6 entry points",
-    "thorough": "same kinds; all ordered triples per family; scalar, (2,) and (2,2) payloads; 6 entry points; EM pairs with 3 prefixes",
+             "scalar and 2-element payloads; 6 entry points. Histories: 20 (A, B, C) triples (B = own spelling / same-scale twin symbol "
+             "/ free; user-defined symbolic units, table units incl. Hz|1/s and J|N*m, T|G|mT and C|statC through the EM route) x 8 in-place "
+             "steps x {plain `to` + every 4th of 18 other chains of length 1-2, rotated so that each triple sees every chain} x every "
+             "object of the history as the victim; scalar or 2-element payloads. Epoch: 2 families (length; temperature with "
+             "offsets, those of the first registry non-zero), 2 registries x 6 entry points x 2 rounds",
+    "thorough": "same kinds; all ordered triples per family; scalar, (2,) and (2,2) payloads; 6 entry points; EM pairs with 3 prefixes. "
+                "Histories: 40 triples (adds compound, energy, two free affine units, symbolic prefixed-offset targets, more table "
+                "pairs) x 8 in-place steps x {`to` + "
+                "every 2nd other chain} (thinned: the full chain product costs ~4x), the other payload shape of the quick tier, plus (2,2) "
+                "on three triples; epoch families (length, temperature, angle) with scalar and 2-element payloads",
 }
-OUTSIDE = "IEEE rounding/overflow (A1); integer and complex payloads (C17); units whose scale is not positive except the table's lat"
+OUTSIDE = ("IEEE rounding/overflow (A1); integer, complex and float32 payloads (C17) - the engine has one real dtype, so a defect that "
+           "depends on the dtype of the buffer (e.g. a copy that is skipped only for float32) is not seen; units whose scale is not "
+           "positive except the table's lat; histories longer than two derivations plus one in-place step; in-place arithmetic other "
+           "than multiply and a raw buffer write; equivalence routes (to_equivalent, C09); base routes inside EM histories; histories "
+           "with three free symbolic scales at once (the third unit of such a history is a table unit)")
 
 NAMES = ["xa", "xb", "xc", "xta", "xtb", "xtc", "xtk", "xtp", "xtq", "xga", "xgb", "xs"]
 
@@ -131,7 +155,24 @@ KINDS = {
     "degC": Kind("degC", "T", _table("degC", 1.0, -273.15)),
     "degF": Kind("degF", "T", _table("degF", 5.0 / 9.0 if False else None, -459.67)),
     "mdegC": Kind("mdegC", "T", _table("mdegC", 1e-3, -273150.0)),
+    # table units of equal scale under different spellings (the oracle constants are written here, not read from unyt)
+    "m": Kind("m", "Ltab", _table("m", 1.0)),
+    "cm": Kind("cm", "Ltab", _table("cm", 1e-2)),
+    "Hz": Kind("Hz", "F", _table("Hz", 1.0)),
+    "per_s": Kind("per_s", "F", _table("1/s", 1.0)),
+    "kHz": Kind("kHz", "F", _table("kHz", 1e3)),
+    "J": Kind("J", "Etab", _table("J", 1.0)),
+    "Nm": Kind("Nm", "Etab", _table("N*m", 1.0)),
+    "erg": Kind("erg", "Etab", _table("erg", 1e-7)),
+    # EM pairs for the history family only: the "scale" is the reading of one unit of it in the SI partner (tesla, coulomb), so
+    # that the affine oracle can follow a quantity across the CGS<->SI route (factors as in EM_FACTOR below)
+    "tesla": Kind("tesla", "EM", _table("T", 1.0)),
+    "gauss": Kind("gauss", "EM", _table("G", 1.0e-4)),
+    "mtesla": Kind("mtesla", "EM", _table("mT", 1.0e-3)),
+    "coulomb": Kind("coulomb", "EM", _table("C", 1.0)),
+    "statC": Kind("statC", "EM", _table("statC", 10.0 / 29979245800.0)),
 }
+EM_KINDS = ("tesla", "gauss", "mtesla", "coulomb", "statC")
 
 
 def _fix_table_scales(mods):
@@ -300,6 +341,292 @@ def make_base_case(kind, system, shape):
     return Case(f"C03/base/{kind}/{system}/shape{'x'.join(map(str, shape)) or '0'}", h)
 
 
+# ----------------------------------------------------------------------------- call histories (results are independent objects)
+#
+# The laws above look at every conversion once, on a fresh input. The property also quantifies over what happened BEFORE a
+# request: A->B->C with the second leg taken in place on the RESULT of the first, a source that is converted in place after
+# a copy of it was handed out, the same request repeated. All of these are only lawful if every non-mutating route returns an
+# object that is independent of its source. A history is: a chain of 1-2 derivations (each a non-mutating route, or an
+# in-place conversion of the head), then ONE in-place step on one of the objects alive (the victim), then the read-back:
+# every other object must still hold exactly its numbers and unit, the victim must read what the affine oracle says, and
+# fresh requests (to / to_value) from the survivors must still give the oracle's numbers. Everything runs inside one path.
+
+ALIAS = {"xa": "xd", "xta": "xtd", "xtk": "xtkd", "xtp": "xtpd", "xga": "xgd"}
+NAMES += sorted(ALIAS.values())
+
+# non-mutating routes: ("route", target) with target "A" | "B" | None (base routes choose their own target)
+CHAINS = [
+    [("to", "B")], [("in_units", "B")], [("to/Unit", "B")], [("to_value", "B")],
+    [("in_base/mks", None)], [("in_base/cgs", None)], [("in_cgs", None)], [("in_mks", None)],
+    [("to", "B"), ("to", "B")], [("in_units", "B"), ("to/Unit", "A")], [("to", "B"), ("to_value", "B")],
+    [("to/Unit", "B"), ("in_base/mks", None)], [("in_mks", None), ("in_units", "A")],
+    [("convert_to_units!", "B"), ("to", "B")], [("convert_to_mks!", None), ("in_mks", None)],
+    [("to", "B"), ("convert_to_units!", "A")],
+]
+# extra chains that only exist when B is A's own unit
+CHAINS_OWN = [[("to/own", "A")], [("to_value/None", "A")], [("to/own", "A"), ("to_value/None", "A")]]
+INPLACE = ["convert_to_units", "convert_to_units/Unit", "convert_to_base/mks", "convert_to_base/cgs", "convert_to_cgs", "convert_to_mks",
+           "imul", "write"]
+
+
+class _Obj:
+    """one live object of a history: val (unyt_array/unyt_quantity, or a bare ndarray from to_value), the unit string it is
+    expected to carry and the oracle of that unit"""
+
+    def __init__(self, val, ustr, orc, bare=False):
+        self.val, self.ustr, self.orc, self.bare = val, ustr, orc, bare
+
+
+def _unit_oracle(u):
+    """oracle of a unit the library chose itself (base equivalents): read from the Unit object's own scale/offset - registry data,
+    not the conversion code"""
+    return U(str(u), u.base_value, u.base_offset)
+
+
+def _step(ctx, reg, head, route, tgt):
+    """apply one chain step to the head object; returns a NEW _Obj (non-mutating routes) or None (in-place routes, head updated)"""
+    Unit = ctx.mods["unyt"].Unit
+    v = head.val
+    if route.endswith("!"):
+        if route == "convert_to_units!":
+            v.convert_to_units(tgt[0])
+            head.ustr, head.orc = tgt
+        elif route == "convert_to_mks!":
+            v.convert_to_mks()
+            head.ustr, head.orc = str(v.units), _unit_oracle(v.units)
+        return None
+    if route == "to":
+        return _Obj(v.to(tgt[0]), *tgt)
+    if route == "in_units":
+        return _Obj(v.in_units(tgt[0]), *tgt)
+    if route == "to/Unit":
+        return _Obj(v.to(Unit(tgt[0], registry=reg)), *tgt)
+    if route == "to/own":
+        return _Obj(v.to(v.units), head.ustr, head.orc)
+    if route == "to_value":
+        return _Obj(v.to_value(tgt[0]), *tgt, bare=True)
+    if route == "to_value/None":
+        return _Obj(v.to_value(), head.ustr, head.orc, bare=True)
+    r = {"in_base/mks": lambda: v.in_base("mks"), "in_base/cgs": lambda: v.in_base("cgs"), "in_cgs": v.in_cgs, "in_mks": v.in_mks}[route]()
+    return _Obj(r, str(r.units), _unit_oracle(r.units))
+
+
+def _slack(*orcs):
+    tot = 0
+    for o in orcs:
+        tot = tot + vabs(o.s * o.o)
+    return tot * float(1e-6)
+
+
+def make_history_case(kinds, shape, op, tag, chains=None):
+    """kinds = [A, B, C]; B may be '=' (A's own unit, same spelling) or '~' (another symbol with A's scale and offset)"""
+    kA, kB, kC = kinds
+    own = kB == "="
+
+    def h(ctx):
+        unyt = ctx.mods["unyt"]
+        Unit = unyt.Unit
+        reg = ctx.registry([])
+        A = KINDS[kA].build(ctx, reg, 0)
+        if kB == "=":
+            B = A
+        elif kB == "~":
+            sB = A[0]
+            for base, al in ALIAS.items():
+                if base in reg.lut:
+                    row = reg.lut[base]
+                    ctx.add_row(reg, al, row[1], row[0], row[2], prefixable=bool(row[4]))
+                    sB = sB.replace(base, al)
+            if sB == A[0]:
+                raise HarnessError(f"no alias row for kind {kA}")
+            B = (sB, U(sB, A[1].s, A[1].o))
+        else:
+            B = KINDS[kB].build(ctx, reg, 1)
+        C = KINDS[kC].build(ctx, reg, 2)
+        tg = {"A": A, "B": B, None: None}
+        k = ctx.real("k", nonzero=True)
+        w = ctx.real("w")
+        xs = elements(ctx.reals("x", shape))
+        si_in = [A[1].si(v) for v in xs]
+
+        slack0 = _slack(A[1], B[1], C[1])
+        slacks = {}
+
+        def slack(*orcs):
+            # rounding band in SI terms: 1e-6 * sum |scale*offset| over A, B, C and every other unit on the way (built once per unit)
+            tot = slack0
+            for o in orcs:
+                if o is not A[1] and o is not B[1] and o is not C[1]:
+                    key = (o.name, id(o.s), id(o.o))
+                    if key not in slacks:
+                        slacks[key] = (o, _slack(o))  # the oracle object is kept alive so that ids stay unique
+                    tot = tot + slacks[key][1]
+            return tot
+
+        def reads(o, extra_orcs=()):
+            e = slack(o.orc, *extra_orcs)
+            return And(*[close(o.orc.si(v), s, extra=e) for v, s in zip(payload(o.val), si_in)])
+
+        for chain in (chains if chains is not None else CHAINS + (CHAINS_OWN if own else [])):
+            cname = "+".join(r for r, _ in chain)
+            nobj = 1 + sum(not r.endswith("!") for r, _ in chain)
+            for victim in range(nobj):
+                # a fresh history over the same symbols
+                objs = [_Obj(ctx.quantity(ctx.reals("x", shape), A[0], reg), *A)]
+                for route, t in chain:
+                    new = _step(ctx, reg, objs[-1], route, tg[t])
+                    if new is not None:
+                        objs.append(new)
+                vic = objs[victim]
+                lab = f"hist/{cname}/{op}@{victim}"
+                if vic.bare and (shape == () or op not in ("imul", "write")):
+                    continue  # a bare number cannot be changed in place; a bare ndarray has no conversion methods
+                ctx.require(f"{lab}/before: every object reads the source's value", And(*[reads(o) for o in objs]))
+                snaps = [payload(o.val) for o in objs]
+                units = [None if o.bare else o.val.units for o in objs]
+                # ---- the in-place step on the victim
+                v = vic.val
+                refused = False
+                if op == "convert_to_units":
+                    v.convert_to_units(C[0])
+                    vic.ustr, vic.orc = C
+                elif op == "convert_to_units/Unit":
+                    v.convert_to_units(Unit(C[0], registry=reg))
+                    vic.ustr, vic.orc = C
+                elif op in ("convert_to_base/mks", "convert_to_base/cgs", "convert_to_cgs", "convert_to_mks"):
+                    {"convert_to_base/mks": lambda: v.convert_to_base("mks"), "convert_to_base/cgs": lambda: v.convert_to_base("cgs"),
+                     "convert_to_cgs": v.convert_to_cgs, "convert_to_mks": v.convert_to_mks}[op]()
+                    vic.ustr, vic.orc = str(v.units), _unit_oracle(v.units)
+                elif op == "imul":
+                    r = call(np.multiply, v, k, out=v)
+                    if r[0] == "raise":
+                        # unyt refuses to scale a reading on an offset scale: then nothing at all may have changed
+                        if type(r[1]).__name__ != "InvalidUnitOperation" or vic.bare:
+                            raise r[1]
+                        refused = True
+                elif op == "write":
+                    (v if vic.bare else v.d)[...] = w
+                else:
+                    raise KeyError(op)
+                # ---- read-back (few, merged obligations: with a shared buffer everything downstream is wrong at once)
+                keep = []
+                for i, o in enumerate(objs):
+                    if i != victim:
+                        keep.append(all_close(payload(o.val), snaps[i], tol=0))
+                        if not o.bare:
+                            keep.append(And(o.val.units is units[i], unit_same(o.val.units, Unit(o.ustr, registry=reg))))
+                if keep:
+                    ctx.require(f"{lab}/bystanders keep numbers and unit", And(*keep))
+                if op == "imul":
+                    good = [all_close(payload(v), snaps[victim], tol=0) if refused else all_close(payload(v), [s * k for s in snaps[victim]])]
+                elif op == "write":
+                    good = [all_close(payload(v), [w] * len(xs), tol=0)]
+                else:
+                    good = [reads(vic)]
+                if not vic.bare:
+                    good.append(unit_same(v.units, units[victim] if op in ("imul", "write") else Unit(vic.ustr, registry=reg)))
+                ctx.observe(f"{lab}/victim", payload(v))
+                # fresh requests from the first surviving quantity: the same request must still give the oracle's numbers,
+                # and an in-place second leg must agree with the direct conversion
+                sv = next((o for i, o in enumerate(objs) if i != victim and not o.bare), None)
+                if sv is not None:
+                    again = _Obj(sv.val.to(C[0]), *C)
+                    again_v = _Obj(sv.val.to_value(C[0]), *C, bare=True)
+                    good += [reads(again, (sv.orc,)), unit_same(again.val.units, Unit(C[0], registry=reg)), reads(again_v, (sv.orc,))]
+                    if op.startswith("convert_to_units"):
+                        good.append(all_close(payload(v), payload(again.val), extra=slack(sv.orc) / vabs(C[1].s)))
+                    ctx.observe(f"{lab}/again", payload(again.val))
+                ctx.require(f"{lab}/victim and fresh requests read the oracle's numbers", And(*good))
+
+    sh = "x".join(map(str, shape)) or "0"
+    return Case(f"C03/{tag}/{'>'.join(kinds)}/{op.replace('/', '.')}/shape{sh}", h,
+                bounds="symbolic: values, scales, offsets, k, w; enumerated: chain of routes, victim, in-place step", budget_s=900, max_paths=20000,
+                weight=10 * len(kinds) * (1 + sum(k.endswith('affine') for k in kinds)))
+
+
+def make_epoch_case(fam, shape, free=True):
+    """the same two spellings (xa, xb) mean different units in two registries; the same request is made alternately on both, through
+    every entry point, twice (the second round runs with every cache of the library warm): each answer must be the one of its OWN
+    registry's scales and offsets - a conversion factor remembered under the spelling alone would show here"""
+    def h(ctx):
+        unyt = ctx.mods["unyt"]
+        D = unyt.dimensions
+        dims = {"L": D.length, "T": D.temperature, "G": D.angle}[fam]
+        worlds = []
+        for r in (1, 2):
+            reg = ctx.registry([])
+            orc = {}
+            for n in ("xa", "xb"):
+                s = ctx.real(f"{n}_s{r}", pos=True)
+                # free=False (quick): the offsets of the first registry are non-zero, those of the second are free (fewer zero/non-zero forks)
+                o = 0.0 if fam == "L" else ctx.real(f"{n}_o{r}", nonzero=(r == 1 and not free))
+                ctx.add_row(reg, n, dims, s, o)
+                orc[n] = U(n, s, o)
+            xs = elements(ctx.reals(f"x{r}", shape))
+            worlds.append((reg, orc, ctx.quantity(ctx.reals(f"x{r}", shape), "xa", reg), xs))
+        for rnd in (1, 2):
+            for e in ENTRIES:
+                for r, (reg, orc, q, xs) in enumerate(worlds, 1):
+                    vals, u = convert(ctx, q, "xb", e)
+                    ctx.require(f"epoch/round {rnd}/registry {r}/A->B si/{e}",
+                                And(*[si_close(orc["xb"].si(v), orc["xa"].si(x), orc["xb"], orc["xa"]) for v, x in zip(vals, xs)]), entry=e)
+                    if u is not None:
+                        ctx.require(f"epoch/round {rnd}/registry {r}/A->B unit/{e}", unit_same(u, unyt.Unit("xb", registry=reg)))
+                    if rnd == 1:
+                        ctx.observe(f"epoch/registry {r}/{e}", vals)
+        for r, (reg, orc, q, xs) in enumerate(worlds, 1):
+            back = q.to("xb").to("xa")
+            ctx.require(f"epoch/registry {r}/A->B->A",
+                        all_close(payload(back), xs, extra=float(1e-6) * (vabs(orc["xa"].o) + vabs(orc["xb"].o * orc["xb"].s / orc["xa"].s))))
+            ctx.require(f"epoch/registry {r}/input untouched",
+                        And(all_close(payload(q), xs, tol=0), unit_same(q.units, unyt.Unit("xa", registry=reg))))
+
+    return Case(f"C03/epoch/{fam}/shape{'x'.join(map(str, shape)) or '0'}", h, bounds="symbolic: values, 4 scales, 4 offsets", budget_s=900,
+                max_paths=20000, weight=40)
+
+
+HIST_TRIPLES_QUICK = [
+    ["plainL", "=", "kplainL"], ["plainL", "~", "uplainL"], ["plainL", "plainL", "cm"],
+    ["Taffine", "=", "Tplain"], ["Taffine", "~", "mdegC"], ["Taffine", "degC", "K"],
+    ["degC", "=", "K"], ["K", "=", "degF"], ["lon", "=", "degree"], ["Gaffine", "=", "rad"], ["Gaffine", "~", "lat"],
+    ["Tk", "=", "degC"], ["mdegC", "=", "degC"], ["kplainL", "~", "plainL"],
+    ["m", "=", "cm"], ["Hz", "per_s", "kHz"], ["J", "Nm", "erg"],
+    ["tesla", "=", "gauss"], ["gauss", "=", "mtesla"], ["coulomb", "=", "statC"],
+]
+# thorough adds these. Three FREE symbolic scales in one history (plainL x3, plainE x3, Tplain x2 + Taffine) and a second
+# symbolic compound are left out: their non-linear obligations cost minutes per case; the third unit is a table unit instead.
+HIST_TRIPLES_MORE = [["Taffine", "~", "Tk"], ["Taffine", "Taffine", "K"], ["Tk", "=", "Taffine"], ["plainL", "plainL", "m"],
+                     ["compound", "=", "compound"], ["plainE", "plainE", "erg"], ["Gaffine", "Gaffine", "lon"], ["Tm", "~", "degC"],
+                     ["TkS", "=", "Tplain"], ["lat", "=", "lon"], ["degF", "=", "R"], ["R", "=", "mdegC"], ["rad", "=", "Gaffine"],
+                     ["uplainL", "=", "plainL"], ["Tplain", "Tplain", "degF"], ["cm", "=", "m"], ["per_s", "Hz", "kHz"],
+                     ["Nm", "J", "erg"], ["statC", "=", "coulomb"], ["mtesla", "tesla", "gauss"]]
+
+
+def _is_base_route(r):
+    return r.startswith(("in_base", "in_cgs", "in_mks", "convert_to_mks", "convert_to_cgs", "convert_to_base"))
+
+
+def history_cases(triples, rotate=0, flip=0, shapes=None):
+    """rotate=0: every chain in every case. rotate=n: each (triple, in-place step) case runs the plain `to` chain plus every n-th
+    of the other chains, shifted so that one triple sees every chain (with two in-place steps each when n=4) and n consecutive
+    triples see every (chain, in-place step) pair. EM triples: explicit targets only (the base routes of EM units are the subject
+    of the em family; their base equivalents have no common SI scale for the oracle)."""
+    out = []
+    for ti, tr in enumerate(triples):
+        em = tr[0] in EM_KINDS
+        first = CHAINS[:1]
+        rest = CHAINS[1:] + (CHAINS_OWN if tr[1] == "=" else [])
+        ops = INPLACE
+        if em:
+            rest = [c for c in rest if not any(_is_base_route(r) for r, _ in c)]
+            ops = [o for o in INPLACE if not _is_base_route(o)]
+        for oi, op in enumerate(ops):
+            chains = first + (rest if not rotate else rest[(oi + ti) % rotate::rotate])
+            for sh in (shapes or [(2,) if op in ("imul", "write") or (ti + oi + flip) % 2 else ()]):
+                out.append(make_history_case(tr, sh, op, "hist", chains))
+    return out
+
+
 def cases(tier, mods):
     _fix_table_scales(mods)
     check_names(mods, NAMES)
@@ -333,6 +660,9 @@ def cases(tier, mods):
         for k in ("plainL", "plainE", "compound", "Taffine", "Gaffine", "Tk", "Tm", "mdegC", "degF", "degC", "lat", "kplainL"):
             for s in ("cgs", "mks"):
                 out.append(make_base_case(k, s, ()))
+        out += history_cases(HIST_TRIPLES_QUICK, rotate=4)
+        for f in ("L", "T"):
+            out.append(make_epoch_case(f, (), free=False))
     else:
         for f, ks in fam.items():
             for a, b, c in itertools.product(ks, ks, ks):
@@ -351,5 +681,12 @@ def cases(tier, mods):
         for k in sorted(KINDS):
             for s in ("cgs", "mks"):
                 for sh in [(), (2,)]:
-                    out.append(make_base_case(k, s, sh))
+                    if k not in EM_KINDS:
+                        out.append(make_base_case(k, s, sh))
+        # thinned: every second of the other chains per (triple, in-place step) instead of all of them (the full product is ~4x the cost)
+        out += history_cases(HIST_TRIPLES_QUICK + HIST_TRIPLES_MORE, rotate=2, flip=1)
+        out += history_cases(HIST_TRIPLES_QUICK[:3], rotate=2, shapes=[(2, 2)])
+        for f in ("L", "T", "G"):
+            for sh in [(), (2,)]:
+                out.append(make_epoch_case(f, sh))
     return out
